@@ -13,8 +13,8 @@ class LoopSpec(object):
     """modifies: {graph name: [component names]} written by the body; inv(L) -> [(name, formula)];
     assumes(L) -> extra facts (lemma instances) added after the invariant is assumed."""
 
-    def __init__(self, inv, modifies=None, assumes=None, note=''):
-        self.inv, self.modifies, self.assumes, self.note = inv, (modifies or {}), assumes, note
+    def __init__(self, inv, modifies=None, assumes=None, note='', on_exit=None, tags=()):
+        self.inv, self.modifies, self.assumes, self.note, self.on_exit, self.tags = inv, (modifies or {}), assumes, note, on_exit, tuple(tags)
 
 
 class LoopState(object):
@@ -84,6 +84,7 @@ def make_L(interp, fr, k, g0, env0, extra=None):
     L.g0 = g0
     L.g = interp.ctx.graphs
     L.env, L.env0 = fr.env, env0
+    L.assuming = False
     if extra:
         for a, b in extra.items():
             setattr(L, a, b)
@@ -104,6 +105,8 @@ def _havoc(interp, fr, node, spec, tag):
     for gname, comps in spec.modifies.items():
         g = ctx.graphs[gname]
         g.havoc(tag, only=comps)
+        if getattr(ctx, 'on_havoc', None):
+            ctx.on_havoc(gname, tag, comps)   # fresh ghost view + the invariant of a graph whose typestate is `valid`
     for n in sorted(assigned_names(node.body) - assigned_names([node.target])):
         if n in fr.env:
             fr.env[n] = havoc_like(fr.env[n], n + tag)
@@ -121,21 +124,29 @@ def _check_frame(interp, spec, before, label):
                            kind='loop-frame')
 
 
+def _check_typestate(interp, before):
+    for gname, g in interp.ctx.graphs.items():
+        if getattr(before[gname], 'valid', False) and not getattr(g, 'valid', False):
+            raise Undecided('loop body breaks the representation invariant of %s (direct write to its edge representation)' % gname)
+
+
 def _index_cut(interp, node, fr, ii, spec):
     ctx = interp.ctx
     label = 'loop@%d' % node.lineno
     g0 = {n: g.snapshot() for n, g in ctx.graphs.items()}
+    views0 = dict(ctx.views)
     env0 = dict(fr.env)
     alt = ctx.choose(2, label)
     if alt == 0:     # (the entry obligations are emitted once, on the first alternative)
-        for name, f in spec.inv(make_L(interp, fr, ii.initial(), g0, env0, {'lo': ii.lo, 'hi': ii.hi})):
-            ctx.oblige('%s.entry.%s' % (label, name), f, kind='loop-entry')
+        for name, f in spec.inv(make_L(interp, fr, ii.initial(), g0, env0, {'lo': ii.lo, 'hi': ii.hi, 'views0': views0})):
+            ctx.oblige('%s.entry.%s' % (label, name), f, kind='loop-entry', tags=spec.tags)
     tag = '@%d' % node.lineno
     _havoc(interp, fr, node, spec, tag)
     if alt == 0:
         k = fresh('k' + tag, Int)
         ctx.assume(z3.And(ii.lo <= k, k < ii.hi))
-        L = make_L(interp, fr, k, g0, env0, {'lo': ii.lo, 'hi': ii.hi})
+        L = make_L(interp, fr, k, g0, env0, {'lo': ii.lo, 'hi': ii.hi, 'views0': views0})
+        L.assuming = True
         for name, f in spec.inv(L):
             ctx.assume(f)
         if spec.assumes:
@@ -149,11 +160,13 @@ def _index_cut(interp, node, fr, ii, spec):
         except _Break:
             raise Undecided('break inside a cut loop')
         _check_frame(interp, spec, before, label)
-        for name, f in spec.inv(make_L(interp, fr, k + 1, g0, env0, {'lo': ii.lo, 'hi': ii.hi})):
-            ctx.oblige('%s.step.%s' % (label, name), f, kind='loop-step')
+        _check_typestate(interp, before)
+        for name, f in spec.inv(make_L(interp, fr, k + 1, g0, env0, {'lo': ii.lo, 'hi': ii.hi, 'views0': views0})):
+            ctx.oblige('%s.step.%s' % (label, name), f, kind='loop-step', tags=spec.tags)
         raise PathEnd('cut')
     kf = ii.final()
-    L = make_L(interp, fr, kf, g0, env0, {'lo': ii.lo, 'hi': ii.hi})
+    L = make_L(interp, fr, kf, g0, env0, {'lo': ii.lo, 'hi': ii.hi, 'views0': views0})
+    L.assuming = True
     for name, f in spec.inv(L):
         ctx.assume(f)
     if spec.assumes:
@@ -198,6 +211,7 @@ def _bag_cut(interp, node, fr, bag, spec):
     ctx = interp.ctx
     label = 'loop@%d' % node.lineno
     g0 = {n: g.snapshot() for n, g in ctx.graphs.items()}
+    views0 = dict(ctx.views)
     env0 = dict(fr.env)
     vs = _vis_sort(bag.sorts)
     empty = z3.BoolVal(False)
@@ -206,12 +220,16 @@ def _bag_cut(interp, node, fr, bag, spec):
     vis_of = lambda V_: (lambda *xs: _sel(V_, xs))
     alt = ctx.choose(2, label)
     if alt == 0:
-        for name, f in spec.inv(make_L(interp, fr, None, g0, env0, {'vis': vis_of(empty), 'Vis': empty, 'bag': bag})):
-            ctx.oblige('%s.entry.%s' % (label, name), f, kind='loop-entry')
+        for name, f in spec.inv(make_L(interp, fr, None, g0, env0, {'vis': vis_of(empty), 'Vis': empty, 'bag': bag, 'cur': None, 'views0': views0})):
+            ctx.oblige('%s.entry.%s' % (label, name), f, kind='loop-entry', tags=spec.tags)
     tag = '@%d' % node.lineno
     _havoc(interp, fr, node, spec, tag)
     Vis = fresh('Vis' + tag, vs)
-    L = make_L(interp, fr, None, g0, env0, {'vis': vis_of(Vis), 'Vis': Vis, 'bag': bag})
+    xs = [fresh('x%d%s' % (i, tag), s) for i, s in enumerate(bag.sorts)] if alt == 0 else None
+    if xs is not None and hasattr(ctx, 'add_focus'):
+        ctx.add_focus(xs)
+    L = make_L(interp, fr, None, g0, env0, {'vis': vis_of(Vis), 'Vis': Vis, 'bag': bag, 'cur': xs, 'views0': views0})
+    L.assuming = True
     qs = [z3.Const('bq%d?%s' % (i, tag), s) for i, s in enumerate(bag.sorts)]
     # visited elements are members (the ghost set only ever grows by members)
     ctx.assume(z3.ForAll(qs, z3.Implies(_sel(Vis, qs), bag.member(*qs)), patterns=[_sel(Vis, qs)]))
@@ -220,13 +238,9 @@ def _bag_cut(interp, node, fr, bag, spec):
     if spec.assumes:
         ctx.assume(spec.assumes(L))
     if alt == 0:
-        xs = [fresh('x%d%s' % (i, tag), s) for i, s in enumerate(bag.sorts)]
         ctx.assume(bag.member(*xs))
         ctx.assume(z3.Not(_sel(Vis, xs)))
-        L.cur = xs
         before = {n: g.snapshot() for n, g in ctx.graphs.items()}
-        if hasattr(ctx, 'add_focus'):
-            ctx.add_focus(xs)
         interp.assign(node.target, bag.make(*xs), fr)
         try:
             interp.exec_block(node.body, fr)
@@ -235,13 +249,16 @@ def _bag_cut(interp, node, fr, bag, spec):
         except _Break:
             raise Undecided('break inside a cut loop')
         _check_frame(interp, spec, before, label)
+        _check_typestate(interp, before)
         Vis2 = _store_true(Vis, xs)
-        L2 = make_L(interp, fr, None, g0, env0, {'vis': vis_of(Vis2), 'Vis': Vis2, 'bag': bag, 'cur': xs})
+        L2 = make_L(interp, fr, None, g0, env0, {'vis': vis_of(Vis2), 'Vis': Vis2, 'bag': bag, 'cur': xs, 'views0': views0})
         for name, f in spec.inv(L2):
-            ctx.oblige('%s.step.%s' % (label, name), f, kind='loop-step')
+            ctx.oblige('%s.step.%s' % (label, name), f, kind='loop-step', tags=spec.tags)
         raise PathEnd('cut')
     ctx.assume(z3.ForAll(qs, z3.Implies(bag.member(*qs), _sel(Vis, qs))))
     L.done = True
+    if spec.on_exit:
+        ctx.assume(spec.on_exit(L))
     interp.exec_block(node.orelse, fr)
 
 
